@@ -205,6 +205,7 @@ def run(ctx):
     ctx.info['appenders'] = [f.qualname for f in appenders]
     d2_data_owners(ctx, committer, appenders)
     d2_commit_counts(ctx, committer, appenders)
+    truncate_commit_matches_resize(ctx, 'D2', committer)
     d3_two_file_order(ctx, committer)
     d4_whole_file_rewrites(ctx)
     from ._shared import inplace_rewrites_truncate
@@ -400,6 +401,50 @@ def d2_commit_counts(ctx, committer, appenders):
                            f'the length of the array that was written: the descriptor may admit rows '
                            f'that were not (completely) written')
     ctx.floor('C17 committer call sites', n, 6)
+
+
+def _factors(e):
+    if isinstance(e, ast.BinOp) and isinstance(e.op, ast.Mult):
+        return _factors(e.left) + _factors(e.right)
+    return [e]
+
+
+def truncate_commit_matches_resize(ctx, clause, committer):
+    """truncate_array: the length that is committed (descriptor + handle) is the length the data file was cut to.
+    The file is resized to  N x (row size)  and the commit is  N - (old length)  (or N itself for an absolute
+    committer): the same N on both sides.  Decided only where both expressions have that shape; other shapes stay
+    with the order-type table of C03 D4."""
+    from ..pathcond import inline as _inl
+    f = ctx.repo.func('array.truncate_array')
+    res = [e for e in ctx.E.primitives(f) if e.kind == 'RESIZE' and isinstance(e.node, ast.Call) and len(e.node.args) > 1]
+    calls = [n for n, cal in ctx.E.callees(f) if cal is committer and isinstance(n, ast.Call)]
+    if not res or not calls:
+        return 0
+    size = res[0].node.args[1]
+    cands = [size] + [v for v, _ in defs_of(f.node, size.id)] if isinstance(size, ast.Name) else [size]
+    facs = set()
+    for c_ in cands:
+        for x in _factors(c_):
+            facs.add(norm(x))
+            facs.add(norm(_inl(f, x)))
+    n = 0
+    for call in calls:
+        arg = commit_delta(ctx, committer, call, f)
+        if arg is None:
+            continue
+        exprs = [arg] + ([v for v, _ in defs_of(f.node, arg.id)] if isinstance(arg, ast.Name) else [])
+        subs = [x for x in exprs if isinstance(x, ast.BinOp) and isinstance(x.op, ast.Sub)]
+        if len(facs) < 2 or not subs:
+            continue
+        n += 1
+        left = subs[-1].left
+        ok = norm(left) in facs or norm(_inl(f, left)) in facs
+        ctx.decide(ok, 'R-FLOW', clause, f, call, 'truncate-commit-is-resize-length',
+                   'truncate_array commits the length the data file was cut to (the resize is N x row size, the commit N - old length)',
+                   detail=f'the file is cut to `{norm(size)[:50]}` but the committed length is `{norm(left)}` + old - old: '
+                          f'`{norm(left)}` is not the row count of the resize (e.g. the raw index, negative for '
+                          f'truncation from the end) — descriptor shape x item size != file length')
+    return n
 
 
 def d3_two_file_order(ctx, committer):
